@@ -19,6 +19,7 @@ REGISTRY = {
     "C07": ("A", "vf.harness.C07", "vf.engine_b.c07"),
     "C08": ("A", "vf.harness.C08"),
     "C09": ("A", "vf.harness.C09"),
+    "C10": ("A", "vf.harness.C10"),
     "C11": ("A", "vf.harness.C11"),
     "C12": ("A", "vf.harness.C12"),
     "C13": ("A", "vf.harness.C13"),
